@@ -25,19 +25,26 @@ from .linear import Lin, lin
 
 
 class _Sub(ast.NodeTransformer):
-    def __init__(self, env):
+    def __init__(self, env, mark=False):
         self.env = env
+        self.mark = mark  # tag what is put in (``_fz``): a value computed earlier, not to be read again against later stores
+
+    def _put(self, v):
+        v = copy.deepcopy(v)
+        if self.mark:
+            v._fz = True
+        return v
 
     def visit_Name(self, node):
         if isinstance(node.ctx, ast.Load) and node.id in self.env and self.env[node.id] is not None:
-            return copy.deepcopy(self.env[node.id])
+            return self._put(self.env[node.id])
         return node
 
     def visit_Attribute(self, node):
         if isinstance(node.ctx, ast.Load):
             key = _attr_key(node)
             if key is not None and key in self.env and self.env[key] is not None:
-                return copy.deepcopy(self.env[key])
+                return self._put(self.env[key])
         return self.generic_visit(node)
 
     # do not substitute inside comprehension targets / lambdas (their own scope)
